@@ -214,74 +214,7 @@ func runC09(c *Ctx) {
 			}
 		}
 	}
-	// wait-group accounting of early reservations
-	for _, m := range []string{"ExchangeReserved", "WithdrawReserved"} {
-		f := c.fn(relTransport, "lazyDnsConnEarlyReservedExchanger", m)
-		if f == nil {
-			continue
-		}
-		isDone := func(in ssa.Instruction) int {
-			if ci, ok := in.(*ssa.Call); ok && callName(ci) == "(*sync.WaitGroup).Done" {
-				if k, ok := fieldKey(ci.Call.Args[0]); ok && k == T+"lazyDnsConn.earlyReserveCallWg" {
-					return 1
-				}
-			}
-			if ci, ok := in.(*ssa.Call); ok {
-				if sc := staticCallee(ci); sc != nil && inMosdns(sc) && sc.Pkg == f.Pkg && sc != f {
-					n := 0
-					eachInstr(sc, func(x ssa.Instruction) {
-						if c2, ok := x.(*ssa.Call); ok && callName(c2) == "(*sync.WaitGroup).Done" {
-							if k, ok := fieldKey(c2.Call.Args[0]); ok && k == T+"lazyDnsConn.earlyReserveCallWg" {
-								n++
-							}
-						}
-					})
-					return n
-				}
-			}
-			return 0
-		}
-		flag := func(from, to *ssa.BasicBlock) string {
-			iff, ok := terminator(from).(*ssa.If)
-			if !ok {
-				return ""
-			}
-			g := guard{Cond: iff.Cond, Truth: from.Succs[0] == to}
-			if cm, ok := g.asCmp(); ok && cm.Op == token.NEQ && isNilConst(cm.Y) {
-				if k, ok := loadedField(cm.X); ok && k == T+"lazyDnsConn.dialErr" {
-					return "dialfailed"
-				}
-			}
-			return ""
-		}
-		pcs, ab := countEvents(f, isDone, func(d *ssa.Defer) int {
-			n := 0
-			if sc := staticCallee(d); sc != nil {
-				eachInstr(sc, func(x ssa.Instruction) { n += isDone(x) })
-			}
-			return n
-		}, flag)
-		key := "wg.Done@" + funcName(f)
-		if ab || len(pcs) == 0 {
-			c.undecided(key, f.Pos(), "path enumeration did not terminate")
-			continue
-		}
-		bad := ""
-		for _, pc := range pcs {
-			if pc.Flags["dialfailed"] {
-				if pc.Count > 1 {
-					bad = fmt.Sprintf("Done called %d times on a dial-failed path ending at %s", pc.Count, p.pos(instrPos(pc.Exit)))
-				}
-			} else if pc.Count != 1 {
-				bad = fmt.Sprintf("Done called %d times on the path ending at %s (must be exactly once: 0 blocks every later reservation in Wait forever, 2 panics with a negative counter)", pc.Count, p.pos(instrPos(pc.Exit)))
-			}
-		}
-		if bad == "" {
-			c.ok(key, f.Pos(), "%d paths: wait group signalled exactly once (dial-failed paths: at most once)", len(pcs))
-		} else {
-			c.fail(key, f.Pos(), "%s", bad)
-		}
-	}
+	checkEarlyWgAccounting(c)
 
 	// ---------------------------------------------------------------- R4
 	c.rule("R4", "the admission test does not count an in-flight query twice; the waiter table is only entered with a reservation", 2)
@@ -670,4 +603,80 @@ func runC09R5(c *Ctx, fns []*ssa.Function) {
 			}
 		})
 	}
+}
+
+// checkEarlyWgAccounting (C09-R3, C07-R9): earlyReserveCallWg.Done is called exactly once on every path of the early
+// exchanger's methods (at most once when the dial failed); a missing Done blocks every later reservation in Wait.
+func checkEarlyWgAccounting(c *Ctx) {
+	p := c.P
+	T := relTransport + "."
+	// wait-group accounting of early reservations
+	for _, m := range []string{"ExchangeReserved", "WithdrawReserved"} {
+		f := c.fn(relTransport, "lazyDnsConnEarlyReservedExchanger", m)
+		if f == nil {
+			continue
+		}
+		isDone := func(in ssa.Instruction) int {
+			if ci, ok := in.(*ssa.Call); ok && callName(ci) == "(*sync.WaitGroup).Done" {
+				if k, ok := fieldKey(ci.Call.Args[0]); ok && k == T+"lazyDnsConn.earlyReserveCallWg" {
+					return 1
+				}
+			}
+			if ci, ok := in.(*ssa.Call); ok {
+				if sc := staticCallee(ci); sc != nil && inMosdns(sc) && sc.Pkg == f.Pkg && sc != f {
+					n := 0
+					eachInstr(sc, func(x ssa.Instruction) {
+						if c2, ok := x.(*ssa.Call); ok && callName(c2) == "(*sync.WaitGroup).Done" {
+							if k, ok := fieldKey(c2.Call.Args[0]); ok && k == T+"lazyDnsConn.earlyReserveCallWg" {
+								n++
+							}
+						}
+					})
+					return n
+				}
+			}
+			return 0
+		}
+		flag := func(from, to *ssa.BasicBlock) string {
+			iff, ok := terminator(from).(*ssa.If)
+			if !ok {
+				return ""
+			}
+			g := guard{Cond: iff.Cond, Truth: from.Succs[0] == to}
+			if cm, ok := g.asCmp(); ok && cm.Op == token.NEQ && isNilConst(cm.Y) {
+				if k, ok := loadedField(cm.X); ok && k == T+"lazyDnsConn.dialErr" {
+					return "dialfailed"
+				}
+			}
+			return ""
+		}
+		pcs, ab := countEvents(f, isDone, func(d *ssa.Defer) int {
+			n := 0
+			if sc := staticCallee(d); sc != nil {
+				eachInstr(sc, func(x ssa.Instruction) { n += isDone(x) })
+			}
+			return n
+		}, flag)
+		key := "wg.Done@" + funcName(f)
+		if ab || len(pcs) == 0 {
+			c.undecided(key, f.Pos(), "path enumeration did not terminate")
+			continue
+		}
+		bad := ""
+		for _, pc := range pcs {
+			if pc.Flags["dialfailed"] {
+				if pc.Count > 1 {
+					bad = fmt.Sprintf("Done called %d times on a dial-failed path ending at %s", pc.Count, p.pos(instrPos(pc.Exit)))
+				}
+			} else if pc.Count != 1 {
+				bad = fmt.Sprintf("Done called %d times on the path ending at %s (must be exactly once: 0 blocks every later reservation in Wait forever, 2 panics with a negative counter)", pc.Count, p.pos(instrPos(pc.Exit)))
+			}
+		}
+		if bad == "" {
+			c.ok(key, f.Pos(), "%d paths: wait group signalled exactly once (dial-failed paths: at most once)", len(pcs))
+		} else {
+			c.fail(key, f.Pos(), "%s", bad)
+		}
+	}
+
 }
